@@ -5,12 +5,12 @@ from . import core
 RULE = ("TLC (Threads.tla) enumerates ALL 924 interleavings of two threads with 6 segments each and all schedules of three threads (4 segments) with "
         "at most 2 pre-emptions; each schedule is replayed on real threads under a cooperative scheduler at the library's yield points (scanbeam, "
         "offset path, rect-clipped path) for program pairs {boolean+shared ReuseableDataContainer64 x same, boolean x offset, offset x rectclip, "
-        "minkowski x boolean, ClipperD x boolean, open-path boolean x boolean} and results are compared bit for bit with the sequential run; the same "
+        "minkowski x boolean, ClipperD x boolean, open-path boolean x boolean, ClipperD PolyTreeD at two precisions, PreserveCollinear(false) clipper x sharers of a container with collinear horizontals} and results are compared bit for bit with the sequential run; the same "
         "programs free-run on 8-16 threads of a ThreadSanitizer build; evaluations = scheduled runs + free-running program executions; non-trivial = "
         "distinct (schedule, program tuple) in which both threads ran at least one segment under the scheduler")
 
-PAIRS = ["1,1", "1,2", "2,3", "4,1", "5,1", "6,1", "6,2", "3,5"]
-TRIPLES = ["1,2,3", "1,4,5", "6,1,2"]
+PAIRS = ["1,1", "1,2", "2,3", "4,1", "5,1", "6,1", "6,2", "3,5", "7,8", "9,1", "9,6"]
+TRIPLES = ["1,2,3", "1,4,5", "6,1,2", "9,1,7"]
 
 def gen_schedules(ctx, cfg, name):
     r = core.tlc_ok(core.tlc("Threads", cfg, workers=4, timeout=600), "Threads " + cfg); ctx.add_tlc(r)
@@ -33,8 +33,8 @@ def run(ctx):
             jobs.append({"exe": exe, "args": {"mode": "sched", "in": s2, "progs": pr, "nseg": 6, "seed": s * 10 + wv}, "out": ctx.path("thr_p%d_%d.ndjson" % (wv, i))})
         for i, pr in enumerate(TRIPLES):
             jobs.append({"exe": exe, "args": {"mode": "sched", "in": s3, "progs": pr, "nseg": 4, "seed": s * 10 + wv}, "out": ctx.path("thr_t%d_%d.ndjson" % (wv, i))})
-    for k in range(2 if q else 6):
-        jobs.append({"exe": exet, "args": {"mode": "free", "threads": 8 if k % 2 == 0 else 16, "iters": 12 if q else 40, "rounds": 3 if q else 6, "seed": s * 10 + k}, "out": ctx.path("thr_free_%d.ndjson" % k),
+    for k in range(4 if q else 8):
+        jobs.append({"exe": exet, "args": {"mode": "free", "threads": 8 if k % 2 == 0 else 16, "iters": 40 if q else 120, "rounds": 6 if q else 12, "seed": s * 10 + k}, "out": ctx.path("thr_free_%d.ndjson" % k),
                      "env": {"TSAN_OPTIONS": "halt_on_error=1:exitcode=66:report_signal_unsafe=0"}})
     def one(j):
         cmd = [j["exe"], "thr"]
@@ -42,13 +42,12 @@ def run(ctx):
             cmd += ["--" + k, str(v)]
         cmd += ["--out", j["out"]]
         p = core.sh(cmd, timeout=2400, env=j.get("env"))
-        if p.returncode != 0 and j["args"].get("mode") == "free":
+        if p.returncode != 0:     # (sched mode: the parent only forks and waits; if it dies, a concurrent library run took it down, e.g. by exhausting memory)
             # the free-running programs are not forked (TSan stops analysing after a fork): a halted process is the Crash event
             j["stderr"] = p.stderr.decode(errors="replace")[-3000:]
             with open(j["out"], "a") as f:
                 f.write(json.dumps({"e": "Crash", "sig": -p.returncode, "case": {"free": j["args"]}}) + "\n")
-        elif p.returncode != 0:
-            raise core.ModelFailure("harness thr failed (%d): %s" % (p.returncode, p.stderr.decode(errors="replace")[-1500:]))
+
     core.run_parallel(one, jobs, n=8)
     res = core.validate_traces("ThreadsTrace", "ThreadsTrace.cfg", [j["out"] for j in jobs], timeout=1200)
     byf = {j["out"]: j for j in jobs}
